@@ -169,16 +169,43 @@ func checkRefsFor(p *Program, r *Report) {
 		{"method:(Table).SeekLog", "(*Iterator).NextLog", "LogRecord.RefName"},
 	}
 	nCmp := 0
+	// a helper that seeks, reads one record and hands the record itself back
+	// (a pointer to a record type among its results) leaves the comparison to
+	// its callers: it is analysed inlined into each of them
+	returnsRecord := func(f *ssa.Function) bool {
+		res := f.Signature.Results()
+		for i := 0; i < res.Len(); i++ {
+			if pt, ok := res.At(i).Type().(*types.Pointer); ok {
+				if n, ok := pt.Elem().(*types.Named); ok && strings.HasSuffix(n.Obj().Name(), "Record") {
+					return true
+				}
+			}
+		}
+		return false
+	}
 	for _, f := range p.Funcs {
 		if f.Parent() != nil {
 			continue
 		}
 		for _, lk := range lookups {
-			if len(callsDirect(f, lk.seek)) == 0 || len(callsDirect(f, lk.next)) == 0 {
+			inline := map[string]bool{}
+			direct := len(callsDirect(f, lk.seek)) > 0 && len(callsDirect(f, lk.next)) > 0
+			if direct && returnsRecord(f) && !f.Object().Exported() {
 				continue
 			}
+			if !direct {
+				for k := range directCallees(f) {
+					if h := p.Func(k); h != nil && h != f && returnsRecord(h) && !h.Object().Exported() &&
+						len(callsDirect(h, lk.seek)) > 0 && len(callsDirect(h, lk.next)) > 0 {
+						inline[k] = true
+					}
+				}
+				if len(inline) == 0 {
+					continue
+				}
+			}
 			fk := funcKey(f)
-			cfg := &simCfg{Event: map[string]bool{lk.seek: true, lk.next: true, "method:(iterator).Next": true}, Pure: map[string]bool{"bytes.Compare": true, "bytes.Equal": true, "strings.HasPrefix": true}, NoInlineDefault: true}
+			cfg := &simCfg{Event: map[string]bool{lk.seek: true, lk.next: true, "method:(iterator).Next": true}, Pure: map[string]bool{"bytes.Compare": true, "bytes.Equal": true, "strings.HasPrefix": true}, NoInlineDefault: true, Inline: inline}
 			c, _ := runSim(p, f, cfg, nil)
 			// a prefix scan (result decided by HasPrefix) is not a point lookup
 			isPrefixScan := len(callsDirect(f, "strings.HasPrefix")) > 0
